@@ -62,16 +62,14 @@ Section Named.
     unfold interface_ann, ann_ctx_ok. destruct fsub as [sels|].
     - destruct (inline_conds fuel0 frs sels) as [ics|m]; simpl; [|discriminate].
       destruct (spreads_on_subtypes S frs sels tn) as [fos|m]; simpl; [|discriminate].
-      assert (forall a c,
+      assert (forall (l : list string) a c,
         (if existsb (fun o : option string => match o with None => true | Some _ => false end) ics
          then Err "AttributeError: inline fragment without type condition"
-         else Ok (opt_if nl (AUnion (map (fun t => AClass (cn +++ t))
-                    (tn :: sorted_set (flat_map (fun o => match o with Some c0 => [c0] | None => [] end) ics ++ fos)))),
-                  {| x_related := map (fun t => {| r_class := cn +++ t; r_type := t |})
-                       (tn :: sorted_set (flat_map (fun o => match o with Some c0 => [c0] | None => [] end) ics ++ fos));
+         else Ok (opt_if nl (AUnion (map (fun t => AClass (cn +++ t)) (tn :: sorted_set l))),
+                  {| x_related := map (fun t => {| r_class := cn +++ t; r_type := t |}) (tn :: sorted_set l);
                      x_abstract := true; x_enums := []; x_scalars := [] |})) = Ok (a, c) ->
         incl (ann_classes a) (map r_class (x_related c)) /\ (forall e, In e (ann_enums a) -> is_enum S e)) as U.
-      { intros a' c'. destruct (existsb _ ics); [discriminate|]. intro H. inversion H; subst; clear H.
+      { intros l a' c'. destruct (existsb _ ics); [discriminate|]. intro H. inversion H; subst; clear H.
         rewrite ann_classes_opt_if, ann_enums_opt_if. simpl.
         rewrite (flat_map_class_names (fun t => cn +++ t)), (flat_map_class_enums (fun t => cn +++ t)).
         rewrite map_map. simpl. split; [apply incl_refl | intros e []]. }
